@@ -27,7 +27,7 @@ Matching == cf.ed = cf.dd /\ cf.ep = cf.dp
 (* the decoder currently runs the sender's ratio (always when configured alike; after convergence otherwise) *)
 SameRatioNow == IsDecode /\ Obs.dec.d = cf.ed /\ Obs.dec.p = cf.ep
 
-C05_NoPanic == l > 1 => ~Obs.panic
+C05_NoPanic == l > 1 /\ Obs.ev # "reset" => ~Obs.panic
 
 (* ---- C07 ---- *)
 (* nothing but original data packets of that group, byte for byte with their length *)
